@@ -1,13 +1,14 @@
 """C01: check configuration (PROPS_ENTRY, consumed by ./check and gen_manifest.py) and the list of lemmas that make up
 the property file (SPEC_ENTRY, consumed by tools/mkprops.py)."""
-PROPS_ENTRY = {'models': ['Model/Queue.v', 'Model/Init.v', 'Model/InitSpec.v'],
+PROPS_ENTRY = {'models': ['Model/Queue.v', 'Model/QueueNoAlloc.v', 'Model/Init.v', 'Model/InitSpec.v'],
  'design_ref': 'DESIGN.md 3.0, 3 C01',
  'assumptions': ['driver level: every driver is also constructed with each subset of the ring features (scenario c08-ring-features-*, monitors 852 / 853 of C08): each of its queues gets exactly the negotiated flags, so an indirect table is only ever published on a queue for which RING_INDIRECT_DESC was negotiated; a quarter of the queue histories run on the legacy layout',
-                 'caller contract of add: buffers non-empty and shorter than 2^32 (bufs_ok)', 'sequentially consistent memory'],
+                 'caller contract of add: buffers non-empty and shorter than 2^32 (bufs_ok)',
+                 'alloc-less build configuration (--no-default-features): the harness is built a second time without the cargo feature alloc; its queue histories (standard + directed capacity histories, indirect requested in half of them) are replayed through Model/QueueNoAlloc.v (kind 3) under the same monitors plus 151 / 169; theorems C01_noalloc_*', 'sequentially consistent memory'],
  'trusted_extra': ['harness reference device walks chains through device addresses resolved by the ledger Hal']}
 
 SPEC_ENTRY = {'title': "Every published buffer chain is well-formed and describes the caller's buffers",
- 'imports': ['Model.Queue', 'Proofs.QueueInv', 'Proofs.QueueReach', 'Proofs.QueueProps'],
+ 'imports': ['Model.Queue', 'Proofs.QueueInv', 'Proofs.QueueReach', 'Proofs.QueueProps', 'Model.QueueNoAlloc', 'Proofs.QueueNoAllocProofs'],
  'theorems': [('C01_add_publishes',
                'Proofs/QueueProps.v',
                'add_publishes',
@@ -20,10 +21,29 @@ SPEC_ENTRY = {'title': "Every published buffer chain is well-formed and describe
                'at any time, every outstanding chain still walks to the buffers submitted for it'),
               ('C01_disjoint', 'Proofs/QueueProps.v', 'chains_disjoint', 'no descriptor belongs to two outstanding chains; the counter is exact'),
               ('C01_invariant', 'Proofs/QueueReach.v', 'Reach_Inv', 'the invariant behind all of the above holds in every reachable state'),
-              ('C01_walk_of_chain', 'Proofs/QueueProps.v', 'walk_chain_ok', None)],
+              ('C01_walk_of_chain', 'Proofs/QueueProps.v', 'walk_chain_ok', None),
+              # ---- the alloc-less build configuration of the crate (--no-default-features): Model/QueueNoAlloc.v ----
+              ('C01_noalloc_new_ignores_indirect', 'Proofs/QueueNoAllocProofs.v', 'na_new_eq', 'alloc-less build: VirtQueue::new drops the request for indirect descriptors: the queue is the direct queue of Model/Queue.v'),
+              ('C01_noalloc_capacity_equiv', 'Proofs/QueueNoAllocProofs.v', 'na_capacity_equiv', 'alloc-less build: the one-clause capacity test `num_used + needed > SIZE` is the three-clause test of the default build with indirect off, for every state, as soon as one buffer is offered (the empty submission is refused earlier in both)'),
+              ('C01_noalloc_add_eq', 'Proofs/QueueNoAllocProofs.v', 'na_add_eq', 'alloc-less build: `add` IS `add` of Model/Queue.v on every state with q_indirect = false, all inputs (any table address: it is never used)'),
+              ('C01_noalloc_pop_used_eq', 'Proofs/QueueNoAllocProofs.v', 'na_pop_used_eq', 'alloc-less build: `pop_used` / `recycle_descriptors` IS that of Model/Queue.v unless the SHADOW descriptor of the completed head carries INDIRECT (the compiled-out branch; never written in this build, C01_noalloc_never_indirect)'),
+              ('C01_noalloc_ignores_missing_fields', 'Proofs/QueueNoAllocProofs.v', 'na_add_ignores_ind', 'alloc-less build: `add` does not read the two fields the struct does not have in this configuration'),
+              ('C01_noalloc_transfer', 'Proofs/QueueNoAllocProofs.v', 'NaReach_Reach', 'every history of the alloc-less build (any request at new, any device) is a history of Model/Queue.v with indirect off: all theorems about Reach apply'),
+              ('C01_noalloc_add_publishes', 'Proofs/QueueNoAllocProofs.v', 'na_add_publishes', 'C01_add_publishes for the alloc-less `add`: the device reaches exactly the caller buffers through the main table alone (the memory view offers no table)'),
+              ('C01_noalloc_never_indirect', 'Proofs/QueueNoAllocProofs.v', 'na_never_indirect', 'C01 / C08, alloc-less build: a driver that negotiated RING_INDIRECT_DESC and asked for indirect descriptors never publishes an INDIRECT descriptor and never shares a table (monitor 169)')],
  'examples': ['Example C01_nonvacuous : exists s1 evs, add (qnew 4 false false) [mkBuf 1 8 100] [mkBuf 2 16 200] 0 = (Ok 0, s1, evs)\n'
               '  /\\ walk (q_dtable s1) (fun _ => None) 0 4 = Some [(100, 8, false); (200, 16, true)].\n'
               'Proof. eexists; eexists; vm_compute; split; reflexivity. Qed.',
               'Example C01_nonvacuous_indirect : exists s1 evs, add (qnew 4 true false) [mkBuf 1 8 100] [mkBuf 2 16 200] 900 = (Ok 0, s1, evs)\n'
               '  /\\ walk (q_dtable s1) (fun a => if a =? 900 then nthN (q_ind s1) 0 None else None) 0 4 = Some [(100, 8, false); (200, 16, true)].\n'
-              'Proof. eexists; eexists; vm_compute; split; reflexivity. Qed.']}
+              'Proof. eexists; eexists; vm_compute; split; reflexivity. Qed.',
+              'Example C01_noalloc_nonvacuous : exists s1 evs, na_add (na_new 4 true false) [mkBuf 1 8 100] [mkBuf 2 16 200] = (Ok 0, s1, evs)\n'
+              '  /\\ walk (q_dtable s1) (fun _ => None) 0 4 = Some [(100, 8, false); (200, 16, true)] /\\ no_indirect_b (q_dtable s1) = true\n'
+              '  /\\ NaReach s1 [new_chain (na_new 4 true false) [mkBuf 1 8 100] [mkBuf 2 16 200] 0] evs.\n'
+              'Proof.\n'
+              '  destruct (na_add (na_new 4 true false) [mkBuf 1 8 100] [mkBuf 2 16 200]) as [[o s1] evs] eqn:E.\n'
+              '  assert (Ho : o = Ok 0) by (vm_compute in E; now inversion E). subst o. exists s1, evs. split; [reflexivity|].\n'
+              '  assert (HR : NaReach (qset_indices (na_new (2 ^ 2) true false) 0) [] []) by (constructor; [vm_compute; discriminate|reflexivity]).\n'
+              '  assert (Hok : bufs_ok (tag_bufs [mkBuf 1 8 100] [mkBuf 2 16 200])) by (repeat constructor; vm_compute; (discriminate || reflexivity)).\n'
+              '  pose proof (NR_add _ _ _ _ _ _ _ _ HR Hok E) as HR1. vm_compute in E. inversion E; subst. repeat split; try reflexivity. exact HR1.\n'
+              'Qed.']}
